@@ -16,7 +16,7 @@ use std::sync::{Arc, Condvar, Mutex};
 const NCELLS: usize = 7;
 
 #[derive(Clone, Copy, Debug)]
-struct Msg { loc: usize, val: u64, carried: usize } // loc: 0 version, 1 gen, 2+i cell i
+pub(crate) struct Msg { loc: usize, val: u64, carried: usize } // loc: 0 version, 1 gen, 2+i cell i
 
 #[derive(Clone, Debug, Default)]
 struct View { cur: usize, acq: usize, coh: [usize; 2 + NCELLS] }
@@ -315,7 +315,7 @@ pub fn parse_scenario(line: &str) -> (Scenario, Vec<Entry>) {
     (Scenario { init, threads }, sched)
 }
 
-fn write_initial_file(path: &str, init: &str) -> Vec<Msg> {
+pub(crate) fn write_initial_file(path: &str, init: &str) -> Vec<Msg> {
     let _ = std::fs::remove_file(path);
     let t: Vec<&str> = init.split_whitespace().collect();
     let (ver, gen, cells, make) = match t[0] {
@@ -341,11 +341,11 @@ fn write_initial_file(path: &str, init: &str) -> Vec<Msg> {
     log
 }
 
-fn cells_of_record(r: &clock_bound_shm::ClockErrorBound) -> [u64; NCELLS] {
+pub(crate) fn cells_of_record(r: &clock_bound_shm::ClockErrorBound) -> [u64; NCELLS] {
     let f = record_fields(r);
     [f[0] as u64, f[1] as u64, f[2] as u64, f[3] as u64, f[4] as u64, (f[5] as u64) | ((f[6] as u64) << 32), f[7] as u64]
 }
-fn record_of_cells(c: [u64; NCELLS]) -> clock_bound_shm::ClockErrorBound {
+pub(crate) fn record_of_cells(c: [u64; NCELLS]) -> clock_bound_shm::ClockErrorBound {
     mk_record(&[c[0] as i64, c[1] as i64, c[2] as i64, c[3] as i64, c[4] as i64, (c[5] & 0xffff_ffff) as i64, (c[5] >> 32) as i64, c[6] as i64])
 }
 
@@ -641,4 +641,37 @@ pub fn exec_slaba() -> String {
     let old = rec_cells(90); let new = rec_cells(n_updates);
     let torn = cells.len() == NCELLS && cells != old.to_vec() && cells != new.to_vec() && cells.iter().any(|&c| c != 0);
     format!("{} updates {} {}", if torn { "torn" } else { "consistent" }, completed, ret.replace('|', "/"))
+}
+
+
+// ------------------------------------------------------------------ C03: a reader that sleeps through many publications
+/// `skip <g0> <n>`: a real reader attaches to a valid segment (generation g0, record 90) and takes a
+/// snapshot; the real writer takes the segment over and publishes n records (1..n) back to back; the
+/// reader then calls twice. No scheduler: real memory, sequential.
+pub fn exec_skip(toks: &[&str]) -> String {
+    let g0: u64 = toks[1].parse().unwrap();
+    let n: u64 = toks[2].parse().unwrap();
+    let path = format!("{}/skip-shm", scratch_dir());
+    write_initial_file(&path, &format!("valid {} 90", g0));
+    let c = CString::new(path.clone()).unwrap();
+    let r = guarded(std::panic::AssertUnwindSafe(|| {
+        let mut reader = ShmReader::new(&c).map_err(|_| "open-failed".to_string())?;
+        let txt = |r: &mut ShmReader| match r.snapshot() { Ok(c) => cells_of_record(c).iter().map(|x| x.to_string()).collect::<Vec<_>>().join(","), Err(_) => "err".into() };
+        let first = txt(&mut reader);
+        let mut w = ShmWriter::new(std::path::Path::new(&path)).map_err(|_| "new-failed".to_string())?;
+        for k in 1..=n { w.write(&record_of_cells(rec_cells(k))); }
+        let second = txt(&mut reader);
+        let third = txt(&mut reader);
+        let gen = { use std::os::unix::fs::FileExt; let f = std::fs::File::open(&path).unwrap(); let mut b = [0u8; 2]; f.read_exact_at(&mut b, 14).unwrap(); u16::from_ne_bytes(b) };
+        Ok::<String, String>(format!("first:{} second:{} third:{} gen:{}", first, second, third, gen))
+    }));
+    match r { Ok(Ok(s)) => s, Ok(Err(e)) => e, Err(()) => "panic".into() }
+}
+
+pub fn skip_grid(all: bool) -> Vec<String> {
+    let mut v = Vec::new();
+    let g0s: &[u64] = if all { &[2, 4, 30000, 65532, 65534, 65533, 1] } else { &[4, 65534, 65533] };
+    let ns: &[u64] = if all { &[0, 1, 2, 3, 1000, 8191, 16383, 16384, 16385, 20000, 32766, 32767, 32768, 40000, 65534, 65535] } else { &[0, 1, 3, 16384, 20000, 32766, 32767, 32768, 40000] };
+    for &g in g0s { for &n in ns { v.push(format!("skip {} {}", g, n)); } }
+    v
 }
